@@ -281,7 +281,58 @@ func runC16(w *World, r *Report) {
 	c16LockSymlink(w, r)
 }
 
+// c16JoinRoot: the directory a SecureJoin confines to must itself be trustworthy: the caller's
+// destination (cleaned) or the result of another SecureJoin — not a plain filepath.Join with a name
+// taken from the archive (a chart name ".." or a symlink planted under it would move the root).
+func c16JoinRoot(w *World, r *Report) {
+	n := 0
+	for _, rel := range []string{"pkg/chart/v2/util", "pkg/plugin/installer"} {
+		for _, fn := range w.FuncsIn(rel) {
+			seen := 0
+			for _, c := range callInstrs(fn) {
+				f, _ := calleeOf(c.Common())
+				if f == nil || !strings.HasSuffix(FuncName(f), "securejoin.SecureJoin") || len(c.Common().Args) < 2 {
+					continue
+				}
+				n++
+				seen++
+				bad := ""
+				backSlice(c.Common().Args[0], func(v ssa.Value) bool {
+					switch x := v.(type) {
+					case *ssa.Parameter:
+						return true
+					case *ssa.Call:
+						g, _ := calleeOf(x.Common())
+						if g == nil {
+							bad = "a dynamic call"
+							return true
+						}
+						switch {
+						case strings.HasSuffix(FuncName(g), "securejoin.SecureJoin"):
+							return true
+						case fnPkgPath(g) == "path/filepath" && (g.Name() == "Clean" || g.Name() == "Abs" || g.Name() == "Dir"):
+							return false // look at its argument
+						default:
+							bad = describeCall(x.Common())
+							return true
+						}
+					case *ssa.BinOp:
+						bad = "a string concatenation"
+						return true
+					}
+					return false
+				})
+				r.Fn(FuncName(fn))
+				r.Check(bad == "", "C16/JOIN", fmt.Sprintf("%s/join-root#%d", FuncName(fn), seen), w.InstrPos(c), "the confining directory is the caller's destination or itself a SecureJoin result", "the directory this SecureJoin confines to is built with "+bad+": a hostile chart name (\"..\", or a name under which a symlink was planted) moves the root outside the destination")
+			}
+		}
+	}
+	_ = n
+}
+
 func c16Join(w *World, r *Report) {
+	c16JoinRoot(w, r)
+	c16SkipOnlyByType(w, r)
 	var scope []*ssa.Function
 	for _, rel := range []string{"pkg/chart/v2/util", "pkg/plugin/installer", "pkg/downloader", "pkg/action"} {
 		scope = append(scope, w.FuncsIn(rel)...)
@@ -797,4 +848,98 @@ func samePath(a, b ssa.Value) bool {
 	}
 	_ = types.Typ
 	return true
+}
+
+// c16SkipOnlyByType: in the archive loader an entry is passed over without being counted against the
+// size budget only because of its type (a directory, a pax/global header); any other skip (by name, say)
+// lets an unlimited amount of data be decompressed and thrown away.
+func c16SkipOnlyByType(w *World, r *Report) {
+	fn := w.Fn("pkg/chart/v2/loader", "LoadArchiveFiles")
+	if fn == nil {
+		return
+	}
+	g := FullGraph(fn)
+	var next ssa.CallInstruction
+	var counted []ssa.Instruction
+	var typeEdges []Edge
+	for _, c := range callInstrs(fn) {
+		if c.Common().IsInvoke() && c.Common().Method.Name() == "IsDir" {
+			if cv := c.Value(); cv != nil {
+				for _, e := range condEdges(cv) {
+					if e.truth {
+						typeEdges = append(typeEdges, e.Edge)
+					}
+				}
+			}
+			continue
+		}
+		f, _ := calleeOf(c.Common())
+		if f == nil {
+			continue
+		}
+		switch {
+		case FuncName(f) == "(*archive/tar.Reader).Next":
+			next = c
+		case fnPkgPath(f) == "io" && (f.Name() == "Copy" || f.Name() == "CopyN" || f.Name() == "ReadAll"):
+			counted = append(counted, c)
+		case c.Common().IsInvoke() && c.Common().Method.Name() == "IsDir":
+			if cv := c.Value(); cv != nil {
+				for _, e := range condEdges(cv) {
+					if e.truth {
+						typeEdges = append(typeEdges, e.Edge)
+					}
+				}
+			}
+		}
+		// a helper that reads the entry (budget passed on): counts as accounting
+		if inHelm(f) && f != fn {
+			for _, cc := range callInstrs(f) {
+				if ff, _ := calleeOf(cc.Common()); ff != nil && fnPkgPath(ff) == "io" && (ff.Name() == "Copy" || ff.Name() == "CopyN") {
+					counted = append(counted, c)
+				}
+			}
+		}
+	}
+	// declared-size rejections also end the iteration (with an error): error returns are not "skips"
+	for _, b := range fn.Blocks {
+		for _, in := range b.Instrs {
+			bo, ok := in.(*ssa.BinOp)
+			if !ok || (bo.Op != token.EQL && bo.Op != token.NEQ) {
+				continue
+			}
+			isTF := func(v ssa.Value) bool {
+				ld, ok := v.(*ssa.UnOp)
+				if !ok {
+					return false
+				}
+				_, t, f := fieldNameOf(ld.X)
+				return t == "Header" && f == "Typeflag"
+			}
+			if isTF(bo.X) || isTF(bo.Y) {
+				for _, e := range condEdges(bo) {
+					if e.truth == (bo.Op == token.EQL) {
+						typeEdges = append(typeEdges, e.Edge)
+					}
+				}
+			}
+		}
+	}
+	if next == nil || len(counted) == 0 {
+		r.Unk("C16/LIMITS", "skip-only-by-type", w.Pos(fn.Pos()), "tar.Reader.Next or the limited copy not found in LoadArchiveFiles")
+		return
+	}
+	oks := okEdgesOfCall(next)
+	bad := ""
+	for _, e := range oks {
+		if len(e.To().Instrs) == 0 {
+			continue
+		}
+		if ex, path := g.PathExists(IPos{e.To(), -1}, posOf(next), avoidInstrs(counted...).withEdges(typeEdges...)); ex {
+			bad = ""
+			for _, pb := range path {
+				bad += w.InstrPos(firstInstr(pb)) + " "
+			}
+		}
+	}
+	r.Check(bad == "" && len(oks) > 0, "C16/LIMITS", "skip-only-by-type", w.InstrPos(next), "an entry is passed over without being counted only because of its type", "an entry can be passed over before the size checks for a reason other than its type (near "+bad+"): its data is decompressed and discarded without any limit")
 }
